@@ -14,6 +14,11 @@ package handlers
 //@   modifies *
 //@   loop "for Header.Data.CanIRead(([]parser.ReadType{parser.ReadInt32, parser.ReadInt32}))"
 //@     invariant wf: Agent != nil && Header.Data != nil
+// C04: a check-in that asked for its jobs in any of its packages is answered with them:
+// the flag, once set, stays set, and it is set by the package that asks.
+//@     invariant sticky: atloophead(asked_for_jobs) ==> asked_for_jobs
+//@     invariant asked:  Command == agent.COMMAND_GET_JOB ==> asked_for_jobs
+//@   guard-call jobs: "GetQueuedJobs" arg(0) == Agent && asked_for_jobs
 
 //@ func handleServiceAgent(Teamserver agent.TeamServer, Header agent.Header, ExternalIP string) (r bytes.Buffer, ok bool)
 //@   requires nonnil: Teamserver != nil && Header.Data != nil && logr.LogrInstance != nil
